@@ -551,6 +551,7 @@ class StmtMixin:
         raise E.Unsupported("while loop: unrolling limit")
 
     def s_For(self, node, frame):
+        node = self.index_loop_as_element_loop(node)
         spec = self.loop_spec(node)
         it = self.force(self.eval(node.iter, frame))
         items = None
@@ -573,6 +574,58 @@ class StmtMixin:
             self.exec_block(node.orelse, frame)
             return
         return self.cut_for(node, frame, spec, it)
+
+    def enclosing_function_of(self, node):
+        """the function definition (of the module being executed) whose body contains this statement"""
+        try:
+            for rel, m in list(self.repo._mods.items()):
+                for fn in ast.walk(m.tree):
+                    if isinstance(fn, (ast.FunctionDef, ast.AsyncFunctionDef)) and fn.lineno <= node.lineno <= (fn.end_lineno or fn.lineno):
+                        if any(n_ is node for n_ in ast.walk(fn)):
+                            return fn
+        except Exception:      # noqa
+            pass
+        return None
+
+    def index_loop_as_element_loop(self, node):
+        """`for i in range(len(X)): x = X[i]; BODY`  is  `for x in X: BODY`  when BODY does not use i, and  `for (i, x) in enumerate(X): BODY`  when it does
+        (X a plain name / attribute path that BODY does not rebind).  The contract's loop specification is written for the element form; the index form
+        is the same loop."""
+        try:
+            it = node.iter
+            if not (isinstance(node.target, ast.Name) and isinstance(it, ast.Call) and isinstance(it.func, ast.Name) and it.func.id == "range"
+                    and len(it.args) == 1 and not it.keywords and isinstance(it.args[0], ast.Call) and isinstance(it.args[0].func, ast.Name)
+                    and it.args[0].func.id == "len" and len(it.args[0].args) == 1 and node.body and not node.orelse):
+                return node
+            X = it.args[0].args[0]
+            if not isinstance(X, (ast.Name, ast.Attribute)):
+                return node
+            first = node.body[0]
+            i = node.target.id
+            if not (isinstance(first, ast.Assign) and len(first.targets) == 1 and isinstance(first.targets[0], ast.Name)
+                    and isinstance(first.value, ast.Subscript) and ast.dump(first.value.value) == ast.dump(X)
+                    and isinstance(first.value.slice, ast.Name) and first.value.slice.id == i):
+                return node
+            x = first.targets[0].id
+            rest = node.body[1:]
+            xtxt = ast.unparse(X)
+            for st in rest:
+                for n_ in ast.walk(st):
+                    if isinstance(n_, ast.Name) and isinstance(n_.ctx, ast.Store) and n_.id in (i, x, xtxt):
+                        return node
+            uses_i = any(isinstance(n_, ast.Name) and n_.id == i for st in rest for n_ in ast.walk(st))
+            if uses_i:
+                tgt = ast.Tuple(elts=[ast.Name(id=i, ctx=ast.Store()), ast.Name(id=x, ctx=ast.Store())], ctx=ast.Store())
+                new_iter = ast.Call(func=ast.Name(id="enumerate", ctx=ast.Load()), args=[X], keywords=[])
+            else:
+                tgt = ast.Name(id=x, ctx=ast.Store())
+                new_iter = X
+            new = ast.For(target=tgt, iter=new_iter, body=rest or [ast.Pass()], orelse=[], type_comment=None)
+            ast.copy_location(new, node)
+            ast.fix_missing_locations(new)
+            return new
+        except Exception:      # noqa
+            return node
 
     def map_loop(self, node, frame, tgt):
         """`for x in L: t1 = e1(x); ...; acc.append(e(x, t1, ...))` with acc a local list that is empty when the loop starts: the explicit-loop form of
@@ -627,19 +680,31 @@ class StmtMixin:
         the loop starts, is the explicit-loop form of the comprehensions  a = [x for x in L if c1(x)], b = [x for x in L if not c1(x) and c2(x)], ...
         and is executed as those (so the refactoring comprehension <-> loop does not need a loop contract).  Returns False when the loop is not
         of that shape."""
-        if node.orelse or not isinstance(node.target, ast.Name):
+        if node.orelse:
             return False
-        tgt = node.target.id
-        if self.map_loop(node, frame, tgt):
-            return True
+        tuple_names = None
+        if isinstance(node.target, ast.Tuple) and all(isinstance(e_, ast.Name) for e_ in node.target.elts):
+            tuple_names = [e_.id for e_ in node.target.elts]       # `for a, b in L: if c: acc.append((a, b))`
+            tgt = "|".join(tuple_names)
+        elif isinstance(node.target, ast.Name):
+            tgt = node.target.id
+            if self.map_loop(node, frame, tgt):
+                return True
+        else:
+            return False
         branches = []      # (test or None, accumulator name)
 
         def append_of(stmts_):
             if len(stmts_) != 1 or not isinstance(stmts_[0], ast.Expr) or not isinstance(stmts_[0].value, ast.Call):
                 return None
             c = stmts_[0].value
-            if isinstance(c.func, ast.Attribute) and c.func.attr == "append" and isinstance(c.func.value, ast.Name) and len(c.args) == 1 \
-                    and not c.keywords and isinstance(c.args[0], ast.Name) and c.args[0].id == tgt:
+            if not (isinstance(c.func, ast.Attribute) and c.func.attr == "append" and isinstance(c.func.value, ast.Name) and len(c.args) == 1 and not c.keywords):
+                return None
+            a0 = c.args[0]
+            if tuple_names is None and isinstance(a0, ast.Name) and a0.id == tgt:
+                return c.func.value.id
+            if tuple_names is not None and isinstance(a0, ast.Tuple) and all(isinstance(e_, ast.Name) for e_ in a0.elts) \
+                    and [e_.id for e_ in a0.elts] == tuple_names:
                 return c.func.value.id
             return None
         body = node.body
@@ -670,7 +735,7 @@ class StmtMixin:
                 branches.append((None, acc))
                 break
         names = [a for _t, a in branches]
-        if len(set(names)) != len(names) or tgt in names:
+        if len(set(names)) != len(names) or tgt in names or (tuple_names is not None and set(tuple_names) & set(names)):
             return False
         for t_, _a in branches:
             if t_ is not None and any(isinstance(x_, (ast.NamedExpr, ast.Await, ast.Yield, ast.YieldFrom)) or
@@ -703,8 +768,13 @@ class StmtMixin:
             if t_ is not None:
                 conds.append(t_)
                 earlier.append(t_)
-            comp = ast.ListComp(elt=ast.Name(id=tgt, ctx=ast.Load()),
-                                generators=[ast.comprehension(target=ast.Name(id=tgt, ctx=ast.Store()), iter=node.iter,
+            if tuple_names is not None:
+                elt_ = ast.Tuple(elts=[ast.Name(id=n_, ctx=ast.Load()) for n_ in tuple_names], ctx=ast.Load())
+                tg_ = ast.Tuple(elts=[ast.Name(id=n_, ctx=ast.Store()) for n_ in tuple_names], ctx=ast.Store())
+            else:
+                elt_, tg_ = ast.Name(id=tgt, ctx=ast.Load()), ast.Name(id=tgt, ctx=ast.Store())
+            comp = ast.ListComp(elt=elt_,
+                                generators=[ast.comprehension(target=tg_, iter=node.iter,
                                                               ifs=[ast.BoolOp(op=ast.And(), values=conds)] if len(conds) > 1 else conds, is_async=0)])
             ast.copy_location(comp, node)
             ast.fix_missing_locations(comp)
@@ -736,6 +806,27 @@ class StmtMixin:
         if isinstance(node, ast.For):
             tgt = ast.unparse(node.target)
             cands = [k for k in specs if k.startswith(f"for {tgt} in ")]
+            if not cands:
+                # the function has exactly one `for` loop and the contract exactly one `for` specification: they are each other's, whatever the loop
+                # variable and the iterable are called now (target names become aliases of the contract's names)
+                root = getattr(self, "root_fnode", None)
+                cur_fn = self.enclosing_function_of(node) or root
+                fors = [n_ for n_ in ast.walk(cur_fn) if isinstance(n_, ast.For)] if cur_fn is not None else []
+                fspecs = [k for k in specs if k.startswith("for ")]
+                it_txt_ = ast.unparse(node.iter)
+                if len(fors) == 1 and len(fspecs) == 1 and not any(k.endswith(" in " + it_txt_) for k in fspecs):
+                    k = fspecs[0]
+                    try:
+                        old_t = ast.parse(k[4:k.index(" in ")], mode="eval").body
+                        olds = [n_.id for n_ in ast.walk(old_t) if isinstance(n_, ast.Name)]
+                        news = [n_.id for n_ in ast.walk(node.target) if isinstance(n_, ast.Name)]
+                        if len(olds) == len(news):
+                            if not hasattr(self, "loop_alias"):
+                                self.loop_alias = {}
+                            self.loop_alias[id(node)] = dict(zip(olds, news))
+                            cands.append(k)
+                    except (SyntaxError, ValueError):
+                        pass
             if not cands:
                 # the loop variable(s) were renamed: same iterable, same target shape -- the contract's names for them become aliases
                 it_txt = ast.unparse(node.iter)
